@@ -15,8 +15,8 @@ ASSUMPTIONS = ["the comparison is against the library's own computation on a fre
 NSHARDS = {"quick": 32, "thorough": 64}
 BUDGET_S = {"quick": 200, "thorough": 2400}
 MIN_HITS = {
-    "quick": {"history": 4000, "sighash_step": 4000, "probe": 30000, "mut_after_fill": 1000, "slots_nonempty": 3000, "op_set_input": 500, "op_set_output": 500, "long_history": 20},
-    "thorough": {"history": 60000, "sighash_step": 60000, "probe": 500000, "mut_after_fill": 15000, "op_set_input": 5000, "op_set_output": 5000, "long_history": 500},
+    'quick': {"history": 4000, "sighash_step": 4000, "probe": 30000, "mut_after_fill": 1000, "slots_nonempty": 3000, "op_set_input": 500, "op_set_output": 500, "long_history": 20},
+    'thorough': {"history": 139802, "sighash_step": 935724, "probe": 4768161, "mut_after_fill": 66234, "op_set_input": 614446, "op_set_output": 460201, "long_history": 5760},
 }
 
 ALPHABET = [
